@@ -3,7 +3,11 @@ pub mod c01;
 pub mod c02;
 pub mod c03;
 pub mod c04;
+pub mod c05;
+pub mod c06;
 pub mod c07;
+pub mod c08;
+pub mod c09;
 
 pub fn spec(id: &str) -> Option<PropSpec> {
   Some(match id {
@@ -11,7 +15,11 @@ pub fn spec(id: &str) -> Option<PropSpec> {
     "C02" => c02::spec(),
     "C03" => c03::spec(),
     "C04" => c04::spec(),
+    "C05" => c05::spec(),
+    "C06" => c06::spec(),
     "C07" => c07::spec(),
+    "C08" => c08::spec(),
+    "C09" => c09::spec(),
     _ => return None,
   })
 }
